@@ -31,8 +31,8 @@ EXTRA["C09"] = [
 ]
 
 EXTRA["C10"] = [
-    M("sign-break-after-first-input", "psbt.py", "                    psbt_in.sigs[private_key.point.sec()] = sig\n                    signed = True\n",
-      "                    psbt_in.sigs[private_key.point.sec()] = sig\n                    signed = True\n                    break\n", ["C10.10"], "a key signs only the first input it unlocks"),
+    M("sign-break-after-first-input", "psbt.py", "                    signed = True\n        # return whether we signed something\n        return signed\n\n    def combine(",
+      "                    signed = True\n                    break\n        # return whether we signed something\n        return signed\n\n    def combine(", ["C10.10"], "a key signs only the first input it unlocks"),
 ]
 
 EXTRA["C11"] = [
